@@ -221,12 +221,19 @@ pub fn dispatch(op: &str, a: &[Arg]) -> Option<String> {
                 let h = c[0].n() as usize;
                 let arg = c[2].n() as usize;
                 match c[1].n() {
-                    0 => {
+                    // 0: open entry arg with the password of the request; 5: with a proper prefix of it (first half);
+                    // 6: with the empty password
+                    op @ (0 | 5 | 6) => {
                         files[h] = None;
                         let p: *mut Ar = &mut *handles[h];
+                        let pwx: Vec<u8> = match op {
+                            5 => pw[..pw.len() / 2].to_vec(),
+                            6 => vec![],
+                            _ => pw.to_vec(),
+                        };
                         let r = unsafe {
-                            if haspw {
-                                (*p).by_index_decrypt(arg, &pw)
+                            if haspw || op != 0 {
+                                (*p).by_index_decrypt(arg, &pwx)
                             } else {
                                 (*p).by_index(arg).map(Ok)
                             }
